@@ -69,14 +69,16 @@ def caps_cases():
     for p in PARAM2SUPPORTED:
         for where in ("inside", "outside"):
             out.append({"t": "caps", "param": p, "where": where})
+        # the provider as the other cases use it: no narrowed sets, encryption not switched on (those lists are empty or absent)
+        out.append({"t": "caps", "param": p, "where": "outside", "srv": "default"})
     return out
 
 
 def _caps_impl(c):
-    s = capserver()
+    s = capserver() if c.get("srv") != "default" else server()
     pi = s.context.provider_info
     p = c["param"]
-    sup = list(pi.get(PARAM2SUPPORTED[p]) or [])
+    sup = list(pi[PARAM2SUPPORTED[p]]) if PARAM2SUPPORTED[p] in pi else None
     kind = "enc" if p.endswith("_enc") else "alg_enc" if "encrypt" in p else "alg_sig"
     val = sup[-1] if c["where"] == "inside" and sup else OUTSIDE[kind]
     req = {"redirect_uris": ["https://rp.example.org/cb"], p: val}
@@ -212,7 +214,8 @@ def impl(c):
 
 def model_lines(c, obs):
     if c.get("t") == "caps":
-        return []          # capability matching (match_claim) is outside the Lean model: the oracle states the rule
+        # filter_client_request / match_claim for the single-valued parameter, against the table regenerated from the source
+        return ["\t".join(["reg", "filter", "gen", c["param"], obs["value"], ",".join(obs["announced"]) if obs["announced"] is not None else "-"])]
     lines = ["reg\treset"]
     regs = []    # register-op index -> model id (or None)
     nxt = 0
@@ -232,7 +235,10 @@ def model_lines(c, obs):
 
 def compare(c, obs, outs):
     if c.get("t") == "caps":
-        return []
+        if obs["r"] != "registered":
+            return [f"capability matching of {c['param']}={obs['value']}: the registration was refused as a whole ({obs.get('e')}), the model filters the parameter"]
+        want = obs["value"] if outs[0].startswith("keep") else None
+        return [] if obs["stored"] == want else [f"capability matching of {c['param']}={obs['value']} against {obs['announced']}: model={outs[0]} stored={obs['stored']!r}"]
     d = []
     k = 1
     for op, st in zip(c["ops"], obs["steps"]):
@@ -270,7 +276,7 @@ def oracle(c, obs):
     v = []
     if c.get("t") == "caps":
         if not obs["announced"]:
-            return [{"cls": "caps-world-not-as-intended", "param": c["param"]}]
+            return [] if c.get("srv") == "default" else [{"cls": "caps-world-not-as-intended", "param": c["param"]}]
         if obs["r"] == "registered":
             for what in ("stored", "echoed"):
                 if obs[what] is not None and obs[what] not in obs["announced"]:
